@@ -16,22 +16,19 @@
 (*  Oversize {announced_kib, announced_over_max, res, alloc_kib}  a raw    *)
 (*           header announcing more than the maximum                       *)
 (*                                                                         *)
-(* Mode "full": additionally the batch is exactly the one the model of the *)
-(*   code computes (accounting = ValidatedSize = payload length).          *)
+(* Mode "full": additionally the batch is exactly the one the batcher of   *)
+(*   the specification admits (accounting = length of the signed envelope) *)
+(*   and message lengths follow the wire grammar.                          *)
 (* Mode "C31":  only the statement: every built message fits the maximum   *)
 (*   (no abort), framing round-trips exactly, oversized frames are refused *)
-(*   before allocation. Known finding C31-1 (if listed): a message over    *)
-(*   the maximum for a batch whose ACCOUNTED (unsigned) size was under the *)
-(*   batcher's threshold while its signed envelopes exceed the maximum.    *)
+(*   before allocation.                                                    *)
 (***************************************************************************)
 EXTENDS TraceLib, FiniteSets
 
 CONSTANTS Mode, MaxC, CountMaxC
 
-T == INSTANCE Transport WITH MAX <- MaxC, COUNTMAX <- CountMaxC, Accounting <- "payload",
+T == INSTANCE Transport WITH MAX <- MaxC, COUNTMAX <- CountMaxC, Accounting <- "signed",
                              Ov <- [tx |-> 4, payload |-> 1, bundle |-> 1, challenge |-> 105, relay |-> 65]
-
-Listed_C31_1 == "VERIF_KNOWN_C31_1" \in DOMAIN IOEnv /\ IOEnv.VERIF_KNOWN_C31_1 = "1"
 
 VARIABLE l
 vars == <<l>>
@@ -49,29 +46,17 @@ BatchOK(e) ==
     /\ e.res = "ok"
     /\ Len(e.batch) <= CountMaxC
     /\ (Mode = "full" =>
-          /\ e.validate0 = "ok" /\ e.validated0 = e.payload[1]
+          /\ e.validate0 = "ok"
           /\ [i \in DOMAIN e.batch |-> e.batch[i] + 1] = T!Batch(QueueOf(e)))
 
-\* the signature of the known finding: signature-heavy batch (envelopes, not payloads, make it big)
-Known(e) ==
-    /\ Listed_C31_1
-    /\ e.ev = "Built"
-    \* the batcher's rule was satisfied by what it accounts (unsigned payload lengths) ...
-    /\ SumSeq(e.payload) < T!Threshold
-    /\ Len(e.signed) <= CountMaxC
-    \* ... and the signed envelopes alone make the message too big
-    /\ SumSeq(e.signed) + 4 * Len(e.signed) + 2 > MaxC - 200
-    /\ PrintT(<<"KNOWN-REACHED", "C31-1", l - 1>>)
-
 BuiltOK(e) ==
-    \/ /\ e.res = "ok"
-       /\ e.len <= MaxC
-       /\ (Mode = "full" =>
+    /\ e.res = "ok"
+    /\ e.len <= MaxC
+    /\ (Mode = "full" =>
              CASE e.kind = "bundle"       -> e.len = 2 + 4 * Len(e.signed) + SumSeq(e.signed)
                [] e.kind = "bundle+relay" -> e.len = 65 + e.inner
                [] e.kind = "challenge"    -> e.len = 106 + 4 * Len(e.signed) + SumSeq(e.signed)
                [] OTHER                   -> TRUE)
-    \/ Known(e)
 
 FrameOK(e) ==
     \* Send accepts only the sizes 1..max, and accepts every such frame the receiver is willing to read
